@@ -36,6 +36,7 @@ type Result struct {
 	FPs       []uint64 `json:"-"`
 	Hash      uint64   `json:"hash"`
 	MaxGor    int      `json:"max_goroutines"`
+	BubbleDeadlock bool `json:"bubble_deadlock,omitempty"`
 	w         *World
 }
 
@@ -380,12 +381,22 @@ var curWorld *World
 // RunOnce executes the scenario once under the given choice prefix (default afterwards).
 func RunOnce(t *testing.T, scn *Scenario, prefix []string, keepTrace bool) *Result {
 	res := &Result{Scn: scn, Prefix: prefix}
+	defer func() {
+		if p := recover(); p != nil {
+			if s, ok := p.(string); ok && strings.Contains(s, "blocked goroutines remain") {
+				res.BubbleDeadlock = true
+				return
+			}
+			panic(p)
+		}
+	}()
 	synctest.Test(t, func(t *testing.T) {
 		w := &World{
 			scn: scn, epoch: time.Now(), store: NewStore(scn.TTL), insts: map[string]*Inst{},
 			opCount: map[string]int{}, nWatch: map[string]int{}, wake: make(chan struct{}, 1),
 			opsThisInstant: map[string]int{}, verbose: keepTrace,
 		}
+		w.baseGor = runtime.NumGoroutine()
 		w.fired = make([]bool, len(scn.Script))
 		w.rootCtx, w.rootCancel = context.WithCancel(context.Background())
 		for _, sp := range scn.Insts {
@@ -611,13 +622,21 @@ func (w *World) teardown(res *Result) {
 	}
 	w.mu.Unlock()
 	synctest.Wait()
-	res.Stuck = libraryGoroutines()
+	if runtime.NumGoroutine() > w.baseGor {
+		res.Stuck = libraryGoroutines()
+	}
 }
 
 // libraryGoroutines returns, for every goroutine that still has a frame of the
 // library on its stack, a one-line signature (innermost library frames).
+var leakedIDs = map[string]bool{}
+var stackBuf []byte
+
 func libraryGoroutines() []string {
-	buf := make([]byte, 1<<20)
+	if stackBuf == nil {
+		stackBuf = make([]byte, 1<<22)
+	}
+	buf := stackBuf
 	n := runtime.Stack(buf, true)
 	var out []string
 	for _, g := range strings.Split(string(buf[:n]), "\n\n") {
@@ -627,6 +646,14 @@ func libraryGoroutines() []string {
 		if strings.Contains(g, "harness.libraryGoroutines") {
 			continue
 		}
+		hdr := g
+		if i := strings.Index(g, " ["); i > 0 {
+			hdr = g[:i]
+		}
+		if leakedIDs[hdr] {
+			continue // left over from an earlier execution of this worker
+		}
+		leakedIDs[hdr] = true
 		var frames []string
 		lines := strings.Split(g, "\n")
 		state := ""
